@@ -189,6 +189,9 @@ pub fn run_part<S: System>(ctx: &Ctx, rep: &mut Report, part: &Part<S>) -> Vec<(
     for cfg in &part.cfgs {
         let alphabet = (part.alphabet)(cfg);
         let mut b = Bfs::new(part.sys, *cfg, &alphabet, part.depth, &ctx.id);
+        if let Ok(n) = std::env::var("AVTMC_MAXV") {
+            b.max_violations = n.parse().unwrap_or(5);
+        }
         b.caps = Caps {
             deadline: Some(deadline),
             max_states: 40_000_000,
